@@ -200,16 +200,25 @@ def judge(ctx, stream, plan, frags, classes):
                 "message %d delivered as type %d / %d bytes, sent type %d / %d bytes; plan %r; stop=%s" % (i, got[0], len(got) - 1, expected[i][0], len(expected[i]) - 1, plan, stop),
             )
     ctx.count("stop:" + stop.split(":")[0])
-    ctx.count("delivered-prefix-len:%d" % min(len(delivered), 9))
+    if len(plan) == 1 and plan[0][0] == "flip":
+        # which packet was hit?  Delivering it (unchanged content) is not what the statement forbids, but a
+        # receiver that checks the whole MAC/tag never does it: kept as an observation counter in the evidence.
+        off = 0
+        for k, ch in enumerate(stream["chunks"]):
+            off += len(ch)
+            if plan[0][1] % len(original) < off:
+                break
+        if len(delivered) > k:
+            ctx.count("observation:modified-packet-accepted-with-identical-content")
     return True
 
 
 # ----------------------------------------------------------------------------- exploration
 
 
-def _stream_spec_strategy(S, cipher_mac=None, comps=("none", "zlib", "zlib@openssh.com"), rekey=True):
+def _stream_spec_strategy(S, cipher_mac=None, comps=("none", "zlib", "zlib@openssh.com"), rekey=True, role=None, strict=None):
     small = S.msg(st.integers(0, 80))
-    large = S.msg(st.integers(200, 900))
+    large = S.msg(st.integers(120, 400))
     msgs1 = st.tuples(st.lists(small, min_size=1, max_size=3), large, st.lists(small, min_size=0, max_size=2)).map(lambda t: t[0] + [t[1]] + t[2])
     msgs2 = st.lists(small, min_size=1, max_size=3)
     suite = (st.tuples(S.cipher, S.mac) if cipher_mac is None else st.just(tuple(cipher_mac))).flatmap(lambda cm: st.sampled_from(comps).map(lambda z: [cm[0], cm[1], z]))
@@ -227,8 +236,8 @@ def _stream_spec_strategy(S, cipher_mac=None, comps=("none", "zlib", "zlib@opens
             epochs.append(draw(keys(su2)))
             msgs.append(draw(msgs2))
         return {
-            "role": draw(st.sampled_from(["client", "server"])),
-            "strict": draw(st.booleans()),
+            "role": role if role is not None else draw(st.sampled_from(["client", "server"])),
+            "strict": strict if strict is not None else draw(st.booleans()),
             "auth_first": su[2] == "zlib@openssh.com" or draw(st.sampled_from([False, False, True])),
             "epochs": epochs,
             "msgs": msgs,
@@ -301,8 +310,13 @@ def run(ctx):
             complete[0] = False
             break
 
-        def body(drawn, cm=cm, z=z):
+        state = {"n": 0}
+
+        def body(drawn, state=state):
             spec, seed, frags = drawn
+            state["n"] += 1
+            if state["n"] == 1:
+                return  # hypothesis' first example is the all-minimal one (empty bodies, K=1): not worth an enumeration
             stream = _try_record(ctx, pkt.norm_case(spec))
             if stream is None:
                 complete[0] = False
@@ -310,10 +324,12 @@ def run(ctx):
             if exhaustive_stream(ctx, stream, seed, extra_masks, frags) is False:
                 complete[0] = False
 
-        # one generated stream per class in quick (both directions in thorough); collect-then-continue:
-        # the failing (stream, single edit) is already minimal, so no shrinking over whole streams
-        strat = st.tuples(_stream_spec_strategy(S, cm, (z,), rekey=not ctx.quick), mask_seed, S.frags)
-        ctx.explore(strat, body, ctx.scale(1, 2), shrink=False, seed_offset=10 + idx)
+        # generated streams per class (sender role and strict flag alternate with the class index);
+        # collect-then-continue: a failing (stream, single edit) is already minimal, no shrinking over streams
+        strat = st.tuples(
+            _stream_spec_strategy(S, cm, (z,), rekey=True, role=("client", "server")[idx % 2], strict=bool((idx // 2) % 2)), mask_seed, S.frags
+        )
+        ctx.explore(strat, body, 1 + ctx.scale(1, 6), shrink=False, seed_offset=10 + idx)
         if ctx.unknown:
             complete[0] = False
             break
@@ -340,10 +356,10 @@ def run(ctx):
         stream = _try_record(ctx, pkt.norm_case(spec))
         if stream is None:
             return
-        judge(ctx, stream, pkt.norm_case(plan), frags, _classes(stream, ["plan:" + "+".join(sorted(set(o[0] for o in plan))), "multi"]))
+        judge(ctx, stream, pkt.norm_case(plan), frags, _classes(stream, sorted(set("plan:" + o[0] for o in plan)) + ["multi", "multi-ops:%d" % len(plan)]))
 
     if not ctx.unknown:
-        ctx.explore(multi, body2, ctx.scale(2000, 12000), shrink=True, seed_offset=5)
+        ctx.explore(multi, body2, ctx.scale(2000, 60000), shrink=True, seed_offset=5)
 
 
 def replay(ctx, case):
